@@ -115,7 +115,13 @@ func Build(t *core.T) *Built {
 	for i := 0; i < nt; i++ {
 		s.Begin("task")
 		var qs []*qt.Query
-		s.Repeat(1, 2, 8, "query", func(int) { qs = append(qs, b.W.DrawQuery(s, -1)) })
+		s.Repeat(1, 2, 8, "query", func(int) {
+			q := b.W.DrawQuery(s, -1)
+			if nAdd >= 600 && (q.Kind == qt.QKNearest || q.Kind == qt.QKNearestMatching) && s.Bool("scalek") {
+				q.K = []int{129, 200, 257, 700}[s.Intn(4, "kscale")] // large-k paths under concurrency
+			}
+			qs = append(qs, q)
+		})
 		b.Plan = append(b.Plan, qs)
 		s.End()
 	}
